@@ -47,7 +47,12 @@ CLAIMED = {
              "(Fits cWidths over the regenerated sizeof constants), streams one-home:127-128-129 / one-home:200 (slot.count), "
              "zero-byte-keys (names handed out by getnext compared over the reported namesize, block size tested through the "
              "ASan interface), thorough: huge:cap70000 / huge:cap140000 (home slots and extension slots beyond 2^15 and 2^16, "
-             "implementation against the oracle).",
+             "implementation against the oracle); digest handling: obligation Shapes.Harr.digest_compared_whole over byte counts "
+             "recorded from the CURRENT qhasharr.c (memcmp of get_idx / memcpy of put_data on MD5 operands = 16 = sizeof "
+             "namemd5), streams digest-first-half / digest-last-half (33-byte keys with a common 16-byte prefix, a common "
+             "home slot and MD5 digests agreeing in 8 of 16 bytes, found by checks/md5half.c and stored as constants); "
+             "both harnesses plant a cycling ambient errno (0, ENOMEM, ERANGE, EINTR, ENOENT, EINVAL, EAGAIN, ENOBUFS) "
+             "before every library call.",
         technique="Lean 4 proof (local slot invariants + ghost ranks, preservation lemma per image transformation, induction "
                   "over operation lists) + K-gen layout + differential correspondence with an independent Python "
                   "well-formedness checker",
